@@ -243,15 +243,19 @@ def _probe(obj, x):
         return float("nan")
 
 
-def _axis_derivative(obj, x, i, f0, side):
+def _axis_derivative(obj, x, i, f0, side, memo=None):
     """Richardson-extrapolated derivative of obj.logd along axis i at x with base steps H1 and H2.
     side = 0: central differences (O(h^4)); side = +1 / -1: one-sided three-point differences that use only points on
     that side of x (O(h^3)).  Returns the list of candidate values [R(H1), R(H2), raw(H1/2)] or None when some logd
     value needed is not finite or the two extrapolations disagree by > 1e-6 (no trustworthy derivative)."""
+    memo = {} if memo is None else memo     # logd values along this axis, keyed by the offset
+
     def f(t):
-        z = np.array(x, dtype=float, copy=True)
-        z[i] += t
-        return _probe(obj, z)
+        if t not in memo:
+            z = np.array(x, dtype=float, copy=True)
+            z[i] += t
+            memo[t] = _probe(obj, z)
+        return memo[t]
 
     def D(h):
         if side == 0:
@@ -269,9 +273,9 @@ def _axis_derivative(obj, x, i, f0, side):
     return out + [raw]
 
 
-def one_sided_pair(obj, x, i, f0):
+def one_sided_pair(obj, x, i, f0, memo=None):
     """both one-sided derivatives along axis i (logd finite on both sides), [] when one of them is not trustworthy"""
-    ws = [_axis_derivative(obj, x, i, f0, s) for s in (+1, -1)]
+    ws = [_axis_derivative(obj, x, i, f0, s, memo) for s in (+1, -1)]
     return (ws[0] + ws[1]) if (ws[0] is not None and ws[1] is not None) else []
 
 
@@ -298,22 +302,24 @@ def boundary_reference(obj, x):
     for i in range(x.size):
         fin = {}
         val = {}
+        memo = {}
         for s in (+1, -1):
-            z1 = x.copy(); z1[i] += s * H1
-            z2 = x.copy(); z2[i] += 2 * s * H1
-            val[s] = _probe(obj, z1)
-            fin[s] = bool(np.isfinite(val[s]) and np.isfinite(_probe(obj, z2)))
+            for t in (s * H1, 2 * s * H1):
+                z = x.copy(); z[i] += t
+                memo[t] = _probe(obj, z)
+            val[s] = memo[s * H1]
+            fin[s] = bool(np.isfinite(val[s]) and np.isfinite(memo[2 * s * H1]))
         c = {"vals": [], "inf": None, "side": "none"}
         if fin[+1] and fin[-1]:
             c["side"] = "both"
-            v = _axis_derivative(obj, x, i, f0, 0)
+            v = _axis_derivative(obj, x, i, f0, 0, memo)
             if v is None:       # kink along this axis (or noisy logd): either one-sided derivative is acceptable
-                v = one_sided_pair(obj, x, i, f0)
+                v = one_sided_pair(obj, x, i, f0, memo)
             c["vals"] = v
         elif fin[+1] or fin[-1]:
             s = +1 if fin[+1] else -1
             c["side"] = "+" if s > 0 else "-"
-            c["vals"] = _axis_derivative(obj, x, i, f0, s) or []
+            c["vals"] = _axis_derivative(obj, x, i, f0, s, memo) or []
             out = val[-s]
             # (f(x - s h) - f(x)) / (-s h) with f(x - s h) = -inf  ->  s * inf
             c["inf"] = (s * np.inf) if (np.isinf(out) and out < 0) else "any"
